@@ -173,6 +173,20 @@ where
 			// Transaction was late locked, select inputs+change now
 			// and insert into original context
 
+			// The proof recipient requested at initiation is so far only recorded in the
+			// late lock args (the tx log entry is created below, from the reply): the reply
+			// must still carry a proof naming that recipient
+			if let Some(ref a) = args.payment_proof_recipient_address {
+				match sl.payment_proof {
+					Some(ref p) if p.receiver_address == a.pub_key => {}
+					_ => {
+						return Err(Error::PaymentProof(
+							"Expected Payment Proof for this Transaction is not present".to_owned(),
+						))
+					}
+				}
+			}
+
 			let current_height = w.w2n_client().get_chain_tip()?.0;
 			let mut temp_sl =
 				tx::new_tx_slate(&mut *w, context.amount, false, 2, false, args.ttl_blocks)?;
